@@ -43,7 +43,7 @@ def run(chk):
     rng = random.Random(chk.seed)
     wd = chk.workdir("gen")
     dump = os.path.join(wd, "m.dump")
-    chk.tlc("laws+gen", "MC_C19", "MC_C19.cfg", wd=wd, args=["-dump", dump])
+    chk.tlc("laws+gen", "MC_C19", "MC_C19_full.cfg" if chk.tier == "thorough" else "MC_C19.cfg", wd=wd, args=["-dump", dump])
     states = [st for st in tlaval.parse_states(open(dump).read()) if st["kind"] != "init"]
     os.remove(dump)
     kinds = {}
@@ -235,7 +235,7 @@ def dec(p):
     return s[:-decimals] + "." + s[-decimals:]
 
 
-EXP_SPELL = {2: ["e2", "e+2", "e+02", "E+02"], -2: ["e-2", "e-02", "E-2"], 6: ["e6", "e+6", "e+06", "E+06"], -6: ["e-6", "e-06", "E-06"]}
+EXP_SPELL = {0: ["e0", "e+0", "e+00", "E-00"], 1: ["e1", "e+01"], -1: ["e-1", "E-01"], 3: ["e3", "e+03", "E+3"], 2: ["e2", "e+2", "e+02", "E+02"], -2: ["e-2", "e-02", "E-2"], 6: ["e6", "e+6", "e+06", "E+06"], -6: ["e-6", "e-06", "E-06"]}
 
 
 def spellings(n):
